@@ -551,6 +551,10 @@ def glue_threading() -> None:
         # If the thread is not alive both before and after we try to fetch
         # its frame, then it's possible that its identity was reused, and
         # we shouldn't trust the frame we get.
+        if thread.ident == threading.get_ident():
+            # The calling thread: its innermost frame right now is one of
+            # ours; end at the caller instead, as extract_since(None) does
+            return StackSlice()
         was_alive = thread.is_alive()
         inner_frame = sys._current_frames().get(thread.ident)  # type: ignore
         if inner_frame is None or not thread.is_alive() or not was_alive:
